@@ -15,13 +15,14 @@ from .lang import arr
 
 TT_FEATURES = ('undo', 'stop', 'preempt', 'spec', 'defeat_funcs', 'preemptive_funcs', 'recursion',
                'loops_around_try', 'exits_from_try', 'handler_try', 'you_helpers', 'arrays',
-               'canary', 'loops_in_try', 'nihilism', 'terminal_calls', 'diverge')
+               'canary', 'loops_in_try', 'nihilism', 'terminal_calls', 'diverge', 'doomed')
 
 
 def swarm_cfg_tt(rnd, **over):
     cfg = {f: rnd.random() < 0.7 for f in TT_FEATURES}
     cfg['terminal_calls'] = rnd.random() < 0.15
     cfg['diverge'] = rnd.random() < 0.08
+    cfg['doomed'] = rnd.random() < 0.3      # try bodies that mostly end in certain defeat
     if not (cfg['undo'] or cfg['stop']):
         cfg['undo'] = True
     cfg['W'] = rnd.choice((2, 2, 3, 4))
@@ -202,7 +203,8 @@ class TTGen:
                                block(*self.defeat_context_stmts(r.randrange(1, 3), depth - 1, exits)),
                                block(*self.defeat_context_stmts(r.randrange(1, 2), depth - 1, exits))
                                if r.random() < 0.5 else None))
-            elif c == 9 and depth > 0 and self.feat('loops_in_try') and self.preempt_budget >= 2:
+            elif (c == 9 or (c == 10 and self.feat('doomed'))) and depth > 0 and self.feat('loops_in_try') \
+                    and (self.preempt_budget >= 2 or self.feat('doomed')):
                 k = r.randrange(1, 4)
                 i = self.name('i')
                 save_budget = self.preempt_budget
@@ -212,6 +214,11 @@ class TTGen:
                 self.in_loop = True
                 inner_exits = [lambda: ('break',), lambda: ('cont',)] if self.feat('exits_from_try') else []
                 body = self.defeat_context_stmts(r.randrange(1, 3), depth - 1, inner_exits)
+                if inner_exits and r.random() < 0.6:
+                    # a plain conditional continue / break inside the loop, then more work
+                    pos = r.randrange(len(body) + 1)
+                    body[pos:pos] = [if_(self.bool_expr(1), block(self.marker(), r.choice(inner_exits)()))]
+                    body += self.defeat_stmt() if r.random() < 0.5 else self.plain()
                 self.in_loop = was
                 self.ro_ints.remove(i)
                 used = (self.preempt_budget_used(body)) * k
@@ -238,6 +245,8 @@ class TTGen:
         body = [self.marker()]
         body += self.defeat_context_stmts(r.randrange(1, 5), depth, exits)
         c = r.random()
+        if self.feat('doomed'):
+            c *= 0.45
         if c < 0.35:
             body.append(ex(call('!is_defeat')))
         elif c < 0.5 and exits:
